@@ -101,7 +101,7 @@ def generate(rng, idx, tier, variant):
     W = {
         'container': {'add_variable': 3, 'setattr': 5, 'setitem': 3, 'setitem_label': 2, 'setitem_slice': 2, 'set_pos': 2, 'replace_values': 2, 'set_values': 2, 'add_attribute': 1, 'set_attr_plain': 2, 'set_strict': 1, 'get': 2, 'spawn': 0.5, 'reindex': 0.3},
         'labels': {'add_variable': 1, 'setattr': 1, 'setitem_label': 6, 'setitem_slice': 6, 'set_pos': 2, 'get': 4, 'setitem': 1},
-        'copies': {'add_variable': 2, 'setattr': 3, 'setitem_label': 1, 'setitem_slice': 1, 'set_pos': 3, 'replace_values': 1, 'set_values': 1, 'add_attribute': 1, 'set_attr_plain': 2, 'set_strict': 1, 'spawn': 5, 'mutate_list': 5, 'solve': 2, 'sub_poke': 2, 'reindex': 0.5},
+        'copies': {'mutate_any': 5, 'add_variable': 2, 'setattr': 3, 'setitem_label': 1, 'setitem_slice': 1, 'set_pos': 3, 'replace_values': 1, 'set_values': 1, 'add_attribute': 1, 'set_attr_plain': 2, 'set_strict': 1, 'spawn': 5, 'mutate_list': 5, 'solve': 2, 'sub_poke': 2, 'reindex': 0.5},
         'reindex': {'add_variable': 3, 'setattr': 3, 'set_pos': 2, 'setitem_slice': 1, 'reindex': 6, 'solve': 2, 'set_strict': 1, 'spawn': 0.5},
     }[variant]
     kinds, weights = zip(*sorted(W.items()))
@@ -206,6 +206,8 @@ def generate(rng, idx, tier, variant):
                 g['np'] += 1
         elif kind == 'mutate_list':
             ops.append({'op': 'mutate_list', 'obj': p, 'attr': rng.choice(['check', 'endogenous', 'names', 'aliases', 'preferred_names', 'trace_names', 'index', 'submodels']), 'action': rng.choice(['append', 'append', 'remove', 'insert']), 'k': rng.randrange(4)})
+        elif kind == 'mutate_any':
+            ops.append({'op': 'mutate_any', 'obj': p, 'k': rng.randrange(1000)})
         elif kind == 'solve':
             opts = S.gen_opts(rng, False)
             opts['offset'] = 0
@@ -461,6 +463,98 @@ def others_unchanged(parties, target_i, before, class_before, ctx, op_kind, clas
             changed = [k for k in now if now[k] != class_before[cname][k]]
             ctx.check('C11', f'class-state-changed/{op_kind}/' + '+'.join(changed), False, {'class': cname, 'attrs': changed, 'now': {k: now[k] for k in changed}})
             class_before[cname] = now
+
+
+def safe_others_unchanged(parties, target_i, before, class_before, ctx, op_kind, classes):
+    """others_unchanged, but an observation that cannot even be taken (because shared state was corrupted) counts as changed."""
+    try:
+        others_unchanged(parties, target_i, before, class_before, ctx, op_kind, classes)
+    except Exception as e:
+        ctx.check('C11', f'shared-state/{op_kind}/observation-broken', False, {'exc': type(e).__name__})
+
+
+def _generic(path):
+    import re
+
+    return re.sub(r'\[\d+\]', '[i]', path)
+
+
+def reachable_mutables(x, depth=4):
+    """Every mutable object reachable from x.__dict__ (lists, dicts, sets, arrays, traces, submodels), with its path."""
+    out = []
+    seen = set()
+
+    def walk(o, path, dleft):
+        if id(o) in seen or dleft < 0:
+            return
+        if isinstance(o, (list, dict, set)):
+            seen.add(id(o))
+            out.append((path, o))
+            items = o.items() if isinstance(o, dict) else enumerate(o) if isinstance(o, list) else []
+            for k, v in items:
+                if isinstance(v, (list, dict, set, np.ndarray)) or hasattr(v, '__dict__'):
+                    walk(v, f'{path}[{k}]' if isinstance(o, list) else f'{path}/{k}', dleft - 1)
+            return
+        if isinstance(o, np.ndarray):
+            seen.add(id(o))
+            if o.dtype.kind == 'O':
+                for j, v in enumerate(o.ravel().tolist()):
+                    walk(v, f'{path}[{j}]', dleft - 1)
+            elif o.size:
+                out.append((path, o))
+            return
+        if isinstance(o, (str, int, float, bool, type(None), range, tuple, type, np.generic)):
+            return
+        if type(o).__module__.startswith('pandas'):
+            return
+        if hasattr(o, '__dict__') and type(o).__name__ != 'Ctl':
+            seen.add(id(o))
+            for k, v in list(o.__dict__.items()):
+                if k == '_ctl':
+                    continue
+                walk(v, f'{path}/{k}', dleft - 1)
+
+    for k, v in list(x.__dict__.items()):
+        if k == '_ctl':
+            continue
+        walk(v, '/' + k, depth)
+    out.sort(key=lambda pv: pv[0])
+    return out
+
+
+def mutate_in_place(o):
+    """Mutate a reachable object in place; return the undo function (None if nothing sensible can be done)."""
+    if isinstance(o, list):
+        o.append('__m__')
+        return lambda: o.pop()
+    if isinstance(o, dict):
+        o['__m__'] = 1
+        return lambda: o.pop('__m__', None)
+    if isinstance(o, set):
+        o.add('__m__')
+        return lambda: o.discard('__m__')
+    if isinstance(o, np.ndarray) and o.size and o.flags['C_CONTIGUOUS'] and o.flags['WRITEABLE']:
+        flat = o.reshape(-1)
+        old = flat[0]
+        try:
+            if o.dtype.kind == 'f':
+                flat[0] = 12345.25 if not (old == 12345.25) else 54321.5
+            elif o.dtype.kind in 'iu':
+                flat[0] = int(old) + 17
+            elif o.dtype.kind == 'b':
+                flat[0] = not bool(old)
+            elif o.dtype.kind == 'U':
+                flat[0] = 'Z' if old != 'Z' else 'Q'
+            else:
+                return None
+        except Exception:
+            return None
+
+        def undo():
+            flat[0] = old
+
+        return undo
+    return None
 
 
 def _rel(parties, i, j):
@@ -873,6 +967,23 @@ def execute(schedule, ctx):
         elif kind == 'mutate_list':
             outcome = do_mutate_list(party, op, ctx)
 
+        elif kind == 'mutate_any':
+            found = reachable_mutables(x)
+            if not found:
+                outcome = 'skipped'
+            else:
+                path, target = found[op['k'] % len(found)]
+                undo_fn = mutate_in_place(target)
+                if undo_fn is None:
+                    outcome = 'skipped'
+                else:
+                    ctx.probe('mutate_any:' + _generic(path)[:40])
+                    try:
+                        safe_others_unchanged(parties, i, before, class_before, ctx, 'mutate_any:' + _generic(path), classes)
+                    finally:
+                        undo_fn()
+                    outcome = 'ok:' + _generic(path)
+
         elif kind == 'sub_poke':
             subs = d.get('submodels')
             if subs and op['sub'] in subs:
@@ -910,7 +1021,9 @@ def execute(schedule, ctx):
         for pj in parties:
             invariants(pj, ctx, 'after-' + kind)
         values_size(party, ctx)
-        if kind not in ('spawn', 'reindex'):
+        if kind == 'mutate_any':
+            pass  # judged while the mutation was in place, then undone
+        elif kind not in ('spawn', 'reindex'):
             others_unchanged(parties, i, before, class_before, ctx, kind, classes)
             undo = getattr(party, 'pending_undo', None)
             if undo:
